@@ -1,2 +1,56 @@
-(* RepairKnotGenProofs.v -- ties the knot for the regenerated path_matching / repair_dna (to be filled in). *)
-From DSW Require Import MiniPyR.
+(* RepairKnotGenProofs.v -- ties the knot for path_matching / repair_dna REGENERATED from the current source (RepairGen.v, MiniPyR.v)
+   and restates C09 / C10 for the source text.  dna_to_number (dsw/operation.py) and set_vt (dsw/spiderweb.py) are callees from
+   other regenerated modules (operation and coder units, over the interpreter copy MiniPy.v): they enter as the hypothesis
+   repair_callees_ok, whose two clauses are the statements py_dna_to_number_int and py2_set_vt proved there.
+   Compiled on every run of the checks against the freshly generated RepairGen.v (harness/regen.py, unit "repair"). *)
+From Coq Require Import Lia ZifyBool Sorted.
+From DSW Require Import MiniPyR Repair Coder Convert Kmer Spec GraphSpec CoderSpec RepairSpec MiniPyRLemmas RepairProofs TerminationProofs.
+From DSWGen Require Import RepairGen RepairRepr PathMatchingGenProofs RepairDnaGenProofs.
+Open Scope Z_scope.
+Open Scope string_scope.
+Ltac Zify.zify_post_hook ::= Z.to_euclidean_division_equations.
+Local Open Scope Z_scope.
+Local Open Scope list_scope.
+Notation lookup := MiniPyR.lookup.
+
+(* the callee environment of repair_dna: path_matching from the regenerated module, everything else from [ce] *)
+Definition repair_env (ce : string -> list val -> res val) (fuel : nat) : string -> list val -> res val :=
+  fun f args => if String.eqb f "path_matching" then run_fun ce fuel path_matching_def args else ce f args.
+
+(* TARGET STATEMENTS
+
+Theorem repair_dna_source : forall ce fuel s acc v0 k vt has_indel heap,
+  repair_callees_ok ce -> (hypotheses of repair_dna_gen: rows of four entries, 1 <= k, 0 <= heap, a non-empty check,
+                           S (length s) < fuel ... exactly what RepairDnaGenProofs.repair_dna_gen needs) ->
+  run_fun (repair_env ce fuel) fuel repair_dna_def [VStr s; varr2 acc; VInt v0; VInt k; v_optstr' vt; VBool has_indel; VInt heap]
+  = res_of_repair (Repair.repair_dna s acc v0 k vt has_indel heap).
+   (repair_callees_ok (repair_env ce fuel) follows from repair_callees_ok ce since the names differ; the path_matching hypothesis of
+    repair_dna_gen is discharged by path_matching_gen -- repair_dna only passes occ = k - recall - 1 >= 0; if repair_dna_gen's
+    hypothesis quantifies over ALL occ, use the model's own equation for occ = -1 ... or better: ask for what is needed and report.)
+
+Theorem C09_clean_source : forall ce fuel s acc v0 k vt indel heap, repair_callees_ok ce ->
+  shaped acc -> in_range acc v0 -> is_walk acc v0 s -> (the hypotheses above) ->
+  exists flag count visited,
+    run_fun (repair_env ce fuel) fuel repair_dna_def [VStr s; varr2 acc; VInt v0; VInt k; v_optstr' vt; VBool indel; VInt heap]
+    = Ret (VTuple [VList (map VStr (if check_okb vt s then [s] else [])); VTuple [VInt 0; VBool flag; VInt count; VInt visited]]).
+   (from RepairProofs.repair_clean)
+
+Theorem C09_output_shape_source : forall ce fuel s acc v0 k vt indel heap cands d flag count visited, repair_callees_ok ce ->
+  (the hypotheses above) ->
+  run_fun (repair_env ce fuel) fuel repair_dna_def [...] = Ret (VTuple [VList (map VStr cands); VTuple [VInt d; VBool flag; VInt count; VInt visited]]) ->
+  StronglySorted lexlt cands /\ (forall c, In c cands -> check_okb vt c = true).
+   (the run determines the model result -- res_of_repair is injective on Ok results -- then RepairProofs.repair_output_shape)
+
+Theorem C10_returns_source : forall ce fuel s acc v0 (k : nat) vt indel heap, repair_callees_ok ce ->
+  (1 <= k)%nat -> shaped acc -> nrows acc = pow4 k -> in_range acc v0 -> acgt s -> (k <= length s)%nat -> (the hypotheses above) ->
+  exists cands d flag count visited,
+    run_fun (repair_env ce fuel) fuel repair_dna_def [VStr s; varr2 acc; VInt v0; VInt (Z.of_nat k); v_optstr' vt; VBool indel; VInt heap]
+    = Ret (VTuple [VList (map VStr cands); VTuple [VInt d; VBool flag; VInt count; VInt visited]])
+    /\ 0 <= visited <= Z.of_nat (length s) * (1 + 16 * Z.of_nat k * Z.of_nat k) /\ 0 <= d <= Z.of_nat (length s).
+   (from TerminationProofs.repair_total; `lookups st` / `detected st` are projections of the statistics tuple)
+
+   plus a non-vacuity Example by vm_compute with a concrete ce built from the models (dna_to_number_int, set_vt) on the GC-balanced
+   order-2 accessor: a clean walk, a walk with one substitution that is repaired, a wrong check.
+   Keep the file compiling at all times; whatever cannot be finished stays in the comment.  End the file with Print Assumptions for
+   every proved theorem (all must be Closed under the global context).
+*)
